@@ -1,13 +1,13 @@
 """Registry: which units serve which property, the level each property is claimed at, and the manifest texts."""
 REGISTRY = {
-    'C01': ['base_core'],
-    'C06': ['base_core'],
+    'C01': ['base_core', 'handles'],
+    'C06': ['base_core', 'handles'],
     'C02': ['core'],
     'C05': ['thread_pool', 'strand', 'core'],
     'C07': ['strand'],
     'C08': ['thread_pool'],
     'C10': ['any'],
-    'C12': ['core'],
+    'C12': ['core', 'handles'],
     'C16': ['event', 'base_core'],
     'C19': ['atomic'],
 }
